@@ -9,13 +9,22 @@ sort; adjoint(.) an uninterpreted function on letters) and a REAL scale factor l
     the product of U  (equivalently: the word reduces to U in the free group over the letters).
 rev, repetition, letterwise adjoint and the group product are recursively defined spec functions; the laws used about them are proved
 as explicit induction lemmas (base + step obligations each).
+
+Extension (seeds C25_1..3).  fold_global: reversed slices with an explicit start index (s[a:b:-1]) are modelled too (slice.indices
+semantics, cross-checked against CPython), the native search is stratified over the fold-count cells (folds, k) with 0 <= k <= n, and a
+bounded native enumeration of those cells runs the real function on real tapes.  Extrapolators: the REAL bodies of _polyfit /
+poly_extrapolate / richardson_extrapolate are run on sympy-backed exact scalars (symbolic abscissae, symbolic polynomial coefficients,
+enumerated (points, order) shapes) with pinv replaced by its assumed contract (inverse of a nonsingular matrix, only for a round-off level
+cut-off); the returned coefficients must be the model polynomial's.  A bounded native stand-in runs all four extrapolators in binary64 on
+model data.  add_noise: bounded native stand-in only (exact channels at the selected positions, each measurement carried once with its
+readout channels, post-processing returns result i at position i, zero strength == noiseless).
 """
 import math as pymath
 from fractions import Fraction
 
 import z3
 
-from vf.common import Plan, Obligation, Outcome, DISCHARGED, REFUTED, FAULT
+from vf.common import Plan, Obligation, Outcome, DISCHARGED, REFUTED, UNDECIDED, FAULT
 from vf.pyvc.engine import (World, T, Int, Float, Label, LabelSort, SeqT, Rec, SeqV, PyList, FloatV, Unsupp, to_int_term, real_of, s_at)
 from vf.pyvc.contract import FnContract, Case, LoopSpec, obligations_for
 from vf.pyvc.contract import lemma as _lemma
@@ -183,6 +192,335 @@ class FoldInterp(Interp):
         return super().seq_binop(op, a, b)
 
 
+# ==== the extrapolators (noise/mitigate.py: _polyfit, poly_extrapolate, richardson_extrapolate, exponential_extrapolate) =========
+def _sym_array(vals):
+    import numpy as np
+    o = np.empty(len(vals), dtype=object)
+    for i, v in enumerate(vals):
+        o[i] = v
+    return o
+
+
+class _CalleePre(Exception):
+    """a modelled library callee was called outside the precondition of its assumed contract"""
+
+
+class _LinalgModel:
+    """math.linalg as _polyfit sees it: pinv / inv / solve are replaced by their ASSUMED contracts on exact scalars
+    (pinv(A) with the default cut-off is the inverse of a nonsingular A); everything else is the real module"""
+
+    def __init__(self, real):
+        self._real, self.calls = real, []
+
+    def __getattr__(self, n):
+        return getattr(self._real, n)
+
+    @staticmethod
+    def _inverse(A):
+        import numpy as np
+        import sympy as sp
+        from vf.symx.sscalar import SS
+        mat = sp.Matrix(A.shape[0], A.shape[1], lambda i, j: A[i, j].e if isinstance(A[i, j], SS) else sp.sympify(A[i, j]))
+        inv = mat.inv(method="LU")
+        out = np.empty(A.shape, dtype=object)
+        for i in range(A.shape[0]):
+            for j in range(A.shape[1]):
+                out[i, j] = SS(inv[i, j])
+        return out
+
+    def pinv(self, A, *args, **kw):
+        self.calls.append(("pinv", args, dict(kw)))
+        cut = [a for a in args[:1]] + [kw[k] for k in ("rcond", "rtol") if kw.get(k) is not None]
+        extra = [k for k in kw if k not in ("rcond", "rtol", "hermitian")]
+        if extra or len(args) > 2 or any((not isinstance(c, (int, float))) or c > 1e-15 for c in cut):
+            # assumed contract: singular values <= cut-off * largest are DISCARDED; only for a cut-off at round-off level (numpy's
+            # default 1e-15) is pinv the inverse of every nonsingular matrix in exact arithmetic
+            raise _CalleePre(f"pinv called with a truncation cut-off {cut or extra}: above round-off level it discards genuine directions "
+                             "of a nonsingular matrix, pinv(A) is then not inverse(A)")
+        return self._inverse(A)
+
+    def inv(self, A, *args, **kw):
+        self.calls.append(("inv", args, dict(kw)))
+        if args or kw:
+            raise _CalleePre("inv called with extra arguments")
+        return self._inverse(A)
+
+
+class _MathModel:
+    """pennylane.math as _polyfit sees it on exact symbolic scalars: dtype conversions are value-preserving (A-float-as-real), sqrt is
+    the exact square root elementwise; every other attribute (vander, stack, sum, transpose, tensordot, ...) is the REAL function"""
+
+    def __init__(self, real):
+        self._real = real
+        self.linalg = _LinalgModel(real.linalg)
+
+    def __getattr__(self, n):
+        return getattr(self._real, n)
+
+    def convert_like(self, x, like):
+        return _sym_array(list(x))
+
+    def cast_like(self, x, like):
+        return x
+
+    def sqrt(self, A):
+        import numpy as np
+        import sympy as sp
+        from vf.symx.sscalar import SS
+        A = np.asarray(A, dtype=object)
+        out = np.empty(A.shape, dtype=object)
+        for idx, v in np.ndenumerate(A):
+            out[idx] = SS(sp.sqrt(v.e if isinstance(v, SS) else sp.sympify(v)))
+        return out[()] if out.ndim == 0 else out
+
+
+POLY_GRIDS = ("consecutive integers 1..n", "1 + j/2", "1 + 2j", "linspace(1, 10, n)", "1 + j/3")
+
+
+def _poly_grid(n, g):
+    import numpy as np
+    return [np.arange(1, n + 1, dtype=float), 1 + 0.5 * np.arange(n), 1 + 2.0 * np.arange(n), np.linspace(1, 10, n), 1 + np.arange(n) / 3.0][g]
+
+
+POLY_TOL = 1e-6
+
+
+def native_extrapolator_search(max_points=6, draws=3, seed=0):
+    """bounded native run of the REAL extrapolators on data that follow their model; returns (replay-dict of the first violation or
+    None, number of runs).  Tolerance: |f(0) - exact| <= 1e-6 * max(1, max|y|) (binary64 with the conditioning of <= 6 points)"""
+    import numpy as np
+    import importlib
+    M = importlib.import_module("pennylane.noise.mitigate")
+    rng = np.random.default_rng(seed)
+    runs = 0
+    for n in range(1, max_points + 1):
+        for g in range(len(POLY_GRIDS)):
+            x = _poly_grid(n, g)
+            for order in range(0, n):
+                for deg in range(0, order + 1):
+                    for _ in range(draws):
+                        p = rng.uniform(-1, 1, deg + 1)
+                        y = np.polyval(p, x)
+                        tol = POLY_TOL * max(1.0, float(np.max(np.abs(y))))
+                        calls = [("poly_extrapolate", lambda: M.poly_extrapolate(x, y, order))]
+                        full = np.concatenate([np.zeros(order - deg), p])
+                        calls.append(("_polyfit", lambda: M._polyfit(x, y, order)))
+                        if order == n - 1:
+                            calls.append(("richardson_extrapolate", lambda: M.richardson_extrapolate(x, y)))
+                        for fname, call in calls:
+                            runs += 1
+                            try:
+                                got = call()
+                                bad = (np.max(np.abs(np.asarray(got, dtype=float) - full)) > 1e-5 * max(1.0, float(np.max(np.abs(y))))) if fname == "_polyfit" \
+                                    else abs(float(got) - p[-1]) > tol
+                                obs = repr(np.asarray(got, dtype=float).tolist())
+                            except Exception as ex:  # pylint: disable=broad-except
+                                bad, obs = True, f"raised {type(ex).__name__}: {ex}"
+                            if bad:
+                                return dict(confirmed=True, function=fname, inputs=dict(x=x.tolist(), y=y.tolist(), order=order),
+                                            observed=obs, expected=f"coefficients {full.tolist()} (f(0) = {p[-1]!r}) of the degree-{deg} polynomial "
+                                            f"the data follow, within {tol:.1e}"), runs
+    for n in range(2, max_points + 1):
+        for g in range(len(POLY_GRIDS)):
+            x = _poly_grid(n, g)
+            for _ in range(2 * draws):
+                A = float(rng.uniform(0.2, 2) * rng.choice([-1, 1]))
+                Bc = float(rng.uniform(-0.6, -0.05))
+                C = float(rng.uniform(-1, 1))
+                for asym in (None, C):
+                    y = A * np.exp(Bc * x) + (0.0 if asym is None else C)
+                    want = A + (0.0 if asym is None else C)
+                    runs += 1
+                    try:
+                        got = float(M.exponential_extrapolate(x, y) if asym is None else M.exponential_extrapolate(x, y, asymptote=asym))
+                        bad, obs = abs(got - want) > POLY_TOL * max(1.0, abs(A)), repr(got)
+                    except Exception as ex:  # pylint: disable=broad-except
+                        bad, obs = True, f"raised {type(ex).__name__}: {ex}"
+                    if bad:
+                        return dict(confirmed=True, function="exponential_extrapolate", inputs=dict(x=x.tolist(), y=y.tolist(), asymptote=asym),
+                                    observed=obs, expected=f"f(0) = A + C = {want!r} of the data A*exp(B*x) + C, A={A!r}, B={Bc!r}"), runs
+    return None, runs
+
+
+def polyfit_symbolic(n, order):
+    """run the REAL bodies of _polyfit / poly_extrapolate / richardson_extrapolate on n symbolic real abscissae and the values of a
+    polynomial of degree <= order with symbolic real coefficients; decide coefficient-by-coefficient equality as rational functions"""
+    import importlib
+    import sympy as sp
+    from vf.symx.sscalar import SS, is_zero_expr
+    from vf.symx.ring import Unsupported
+    M = importlib.import_module("pennylane.noise.mitigate")
+    xs = [SS(sp.Symbol(f"x{i}", real=True)) for i in range(n)]
+    ps = [sp.Symbol(f"p{j}", real=True) for j in range(order + 1)]
+    ys = [SS(sum(ps[j] * x.e ** (order - j) for j in range(order + 1))) for x in xs]
+    model = _MathModel(M.math)
+    real_math = M.math
+    M.math = model
+    failure = None
+    try:
+        c = M._polyfit(_sym_array(xs), list(ys), order)
+        e0 = M.poly_extrapolate(_sym_array(xs), list(ys), order)
+        r0 = M.richardson_extrapolate(_sym_array(xs), list(ys)) if order == n - 1 else None
+    except (_CalleePre, Unsupported, TypeError, ValueError, AttributeError, NotImplementedError) as ex:
+        failure = ex
+    finally:
+        M.math = real_math                  # the native runs below use the real module again
+    if isinstance(failure, _CalleePre):
+        rp, runs = native_extrapolator_search()
+        if rp is not None:
+            return Outcome(REFUTED, "symx+native", f"assumed callee contract not applicable: {failure}; the real extrapolators are not exact on model data",
+                           witness=dict(function=rp["function"], inputs=rp["inputs"]), replay=rp)
+        return Outcome(UNDECIDED, "symx", f"assumed callee contract not applicable: {failure}; {runs} native runs found no inexact fit")
+    if failure is not None:
+        rp, runs = native_extrapolator_search()
+        if rp is not None:
+            return Outcome(REFUTED, "native", f"_polyfit left the symbolic fragment ({type(failure).__name__}: {failure}); the real extrapolators are not "
+                           "exact on model data", witness=dict(function=rp["function"], inputs=rp["inputs"]), replay=rp)
+        return Outcome(UNDECIDED, "symx", f"_polyfit left the symbolic fragment: {type(failure).__name__}: {str(failure)[:200]}",
+                       extra=dict(standin="passed", standin_bound=f"{runs} native runs of the real extrapolators on model data"))
+    if not any(k[0] in ("pinv", "inv") for k in model.linalg.calls):
+        return Outcome(FAULT, "symx", "the traced fit never reached the modelled linear solve")
+    if getattr(c, "shape", None) != (order + 1,):
+        bad = [("shape", getattr(c, "shape", None))]
+    else:
+        bad = [(f"coefficient {j}", c[j].e) for j in range(order + 1) if not is_zero_expr(c[j].e - ps[j])]
+        if not is_zero_expr(e0.e - ps[order]):
+            bad.append(("poly_extrapolate", e0.e))
+        if r0 is not None and not is_zero_expr(r0.e - ps[order]):
+            bad.append(("richardson_extrapolate", r0.e))
+    if not bad:
+        return Outcome(DISCHARGED, "symx", f"{order + 1} coefficients, poly_extrapolate" + (", richardson_extrapolate" if r0 is not None else "") +
+                       f": equal to the model polynomial's as rational functions of {n} abscissae and {order + 1} coefficients")
+    rp, runs = native_extrapolator_search()
+    if rp is None:
+        rp = dict(confirmed=None, note=f"symbolic result differs from the model polynomial; {runs} native float runs stayed within tolerance")
+    return Outcome(REFUTED, "symx", f"fit of {n} points, order {order}: {bad[0][0]} is not the model polynomial's: {str(bad[0][1])[:300]}",
+                   witness=dict(points=n, order=order, differs=[b[0] for b in bad]), replay=rp)
+
+
+# ==== add_noise (noise/add_noise.py) ==================================================================================================
+AN_POOL = ("Z(0)", "X(0)", "Z(1)", "X(1)", "Z(2)", "Y(2)")
+
+
+def _an_circuits():
+    import pennylane as qp
+    return [[qp.RX(0.3, 0), qp.RY(1.2, 1), qp.CNOT([0, 1]), qp.RX(0.8, 2), qp.CNOT([1, 2])],
+            [qp.RY(0.4, 1), qp.S(0), qp.RX(-0.7, 1), qp.CZ([2, 0])], []]
+
+
+def _an_rules(p):
+    """(condition, noise callable, independent selector, independent list of requested channels)"""
+    import pennylane as qp
+    gate = [(qp.noise.op_eq(qp.RX), qp.noise.partial_wires(qp.PhaseDamping, p), lambda op: isinstance(op, qp.RX),
+             lambda op: [qp.PhaseDamping(p, wires=op.wires)]),
+            (qp.noise.wires_in([1]), qp.noise.partial_wires(qp.DepolarizingChannel, p), lambda op: set(op.wires) <= {1},
+             lambda op: [qp.DepolarizingChannel(p, wires=op.wires)])]
+    meas = [(qp.noise.meas_eq(qp.expval) & qp.noise.wires_in([0]), qp.noise.partial_wires(qp.BitFlip, p), lambda m: set(m.wires) <= {0},
+             lambda m: [qp.BitFlip(p, wires=m.wires)]),
+            (qp.noise.wires_in([1, 2]) & qp.noise.meas_eq(qp.expval), qp.noise.partial_wires(qp.PhaseFlip, p), lambda m: set(m.wires) <= {1, 2},
+             lambda m: [qp.PhaseFlip(p, wires=m.wires)])]
+    return gate, meas
+
+
+def add_noise_contract(ops, obs_idx, gsel, msel, p, execute=False, dev=None):
+    """the executable contract of add_noise on one input; None when it holds, else what is wrong.  From the property statement:
+    every circuit of the batch is the input circuit with exactly the requested channels after the operations the conditions select
+    (model order) followed by the readout channels of the measurements it carries; every measurement is carried exactly once; the
+    post-processing returns, at position i, the result of measurement i; with zero strength the results are the noiseless ones"""
+    import numpy as np
+    import pennylane as qp
+    pool = [lambda: qp.Z(0), lambda: qp.X(0), lambda: qp.Z(1), lambda: qp.X(1), lambda: qp.Z(2), lambda: qp.Y(2)]
+    meas = [qp.expval(pool[i]()) for i in obs_idx]
+    tape = qp.tape.QuantumScript(ops, meas)
+    grules, mrules = _an_rules(p)
+    gr = [r for r, s_ in zip(grules, gsel) if s_]
+    mr = [r for r, s_ in zip(mrules, msel) if s_]
+    model = qp.NoiseModel({c: n for c, n, _, _ in gr}, meas_map={c: n for c, n, _, _ in mr}) if mr else qp.NoiseModel({c: n for c, n, _, _ in gr})
+    tapes, fn = qp.add_noise(tape, model)
+    exp_ops = []
+    for op in ops:
+        exp_ops.append(op)
+        for _, _, sel, mk in gr:
+            if sel(op):
+                exp_ops.extend(mk(op))
+
+    def readout(m):
+        return [o for _, _, sel, mk in mr if sel(m) for o in mk(m)]
+
+    def same_ops(a, b):
+        return len(a) == len(b) and all(qp.equal(u, v) for u, v in zip(a, b))
+    seen = {}
+    for ti, t in enumerate(tapes):
+        if meas and not t.measurements:
+            return f"circuit {ti} of the batch has no measurement"
+        for mi, m in enumerate(t.measurements):
+            js = [j for j, mo in enumerate(meas) if mo is m] or [j for j, mo in enumerate(meas) if qp.equal(mo, m)]
+            if len(js) != 1:
+                return f"circuit {ti}, measurement {mi}: not one of the requested measurements"
+            if js[0] in seen:
+                return f"measurement {js[0]} is carried twice"
+            seen[js[0]] = (ti, mi)
+            if not same_ops(list(t.operations), exp_ops + readout(m)):
+                return f"circuit {ti} (carrying measurement {js[0]}): operations {list(t.operations)} != requested {exp_ops + readout(m)}"
+    if len(seen) != len(meas):
+        return f"measurements {sorted(set(range(len(meas))) - set(seen))} are missing from the batch"
+    inv = {v: k for k, v in seen.items()}
+    res = []
+    for ti, t in enumerate(tapes):
+        toks = [f"result-of-measurement-{inv[(ti, mi)]}" for mi in range(len(t.measurements))]
+        res.append(toks[0] if len(toks) == 1 else tuple(toks))
+    out = fn(tuple(res))
+    want = tuple(f"result-of-measurement-{j}" for j in range(len(meas)))
+    want = want[0] if len(want) == 1 else want
+    if out != want:
+        return f"post-processing returns {out}, expected {want}"
+    if execute:
+        got = np.array(fn(qp.execute(tapes, dev)), dtype=float).reshape(-1)
+        ref = [float(qp.execute([qp.tape.QuantumScript(exp_ops + readout(m), [m])], dev)[0]) for m in meas]
+        if not np.allclose(got, ref, atol=1e-8):
+            return f"executed results {got.tolist()} differ from the one-circuit-per-measurement reference {ref}"
+        if p == 0.0:
+            plain = np.array(qp.execute([qp.tape.QuantumScript(ops, meas)], dev)[0], dtype=float).reshape(-1)
+            if not np.allclose(got, plain, atol=1e-8):
+                return f"zero-strength results {got.tolist()} differ from the noiseless results {plain.tolist()}"
+    return None
+
+
+def add_noise_enumeration(max_meas=4, sample5=120):
+    import itertools
+    import random
+    import pennylane as qp
+    dev = qp.device("default.mixed", wires=3)
+    sels = ((1, 1), (1, 0), (0, 1), (0, 0))
+    rng = random.Random(0)
+    seqs = [t for M_ in range(1, max_meas + 1) for t in itertools.permutations(range(len(AN_POOL)), M_)]
+    fives = list(itertools.permutations(range(len(AN_POOL)), 5))
+    seqs += rng.sample(fives, min(sample5, len(fives)))
+    cnt = 0
+    for obs_idx in seqs:
+        for msel in sels:
+            ci, gsel, p = cnt % 3, sels[(cnt // 3) % 4], (0.0, 0.15)[cnt % 2]
+            execute = cnt % 61 == 0
+            try:
+                why = add_noise_contract(_an_circuits()[ci], obs_idx, gsel, msel, p, execute=execute, dev=dev)
+            except Exception as ex:  # pylint: disable=broad-except
+                why = f"raised {type(ex).__name__}: {ex}"
+            cnt += 1
+            if why:
+                inputs = dict(circuit=[repr(o) for o in _an_circuits()[ci]], measurements=[f"expval({AN_POOL[i]})" for i in obs_idx],
+                              gate_rules_enabled=gsel, readout_rules_enabled=msel, strength=p)
+                again = None
+                try:
+                    again = add_noise_contract(_an_circuits()[ci], obs_idx, gsel, msel, p, execute=execute, dev=dev)
+                except Exception as ex:  # pylint: disable=broad-except
+                    again = f"raised {type(ex).__name__}: {ex}"
+                return Outcome(REFUTED, "native", f"add_noise violates its contract: {why[:400]}", witness=inputs,
+                               replay=dict(confirmed=bool(again), inputs=inputs, observed=str(again)[:600],
+                                           expected="requested channels at the selected positions; result i belongs to measurement i"))
+    return Outcome(DISCHARGED, "native", f"{cnt} real add_noise runs: every ordered choice of <= {max_meas} of {len(AN_POOL)} observables (+{sample5} of 5), "
+                   "all subsets of 2 gate rules x 2 readout rules")
+
+
 def build(tier, seed):
     del LEMMA_HYPS[:]
     plan = Plan("C25", level="proof")
@@ -194,7 +532,12 @@ def build(tier, seed):
         "U ++ (rev(U+) ++ U)^folds ++ (rev(U+[n-k:]) ++ U[n-k:] if k) with folds / k the program-text counts. Lemma obligations (no program "
         "involved): those counts are floor((lambda-1)/2) and round_half_even(frac*n/2) with 0 <= k <= n; the shape has n*(1+2*folds)+2k "
         "operations, which is within 1 of lambda*n; the shape has the same product as U in every group where adjoint(x) maps to the "
-        "inverse of x. The laws about the spec functions are base + step lemma pairs; channels are rejected (ValueError).")
+        "inverse of x. The laws about the spec functions are base + step lemma pairs; channels are rejected (ValueError). "
+        "Extrapolators: the real bodies of _polyfit / poly_extrapolate / richardson_extrapolate run on exact symbolic scalars (sympy-backed) for "
+        "enumerated (points, order) shapes with symbolic abscissae and coefficients; pinv is an assumed contract (inverse, round-off level cut-off "
+        "only); the fit must return the model polynomial's coefficients (rational-function normal form). Bounded native stand-ins (not proofs): "
+        "fold_global over all fold-count cells of small circuits, the four extrapolators in binary64 on model data, add_noise over enumerated "
+        "conditional selections / readout groupings with a token-based check of the post-processing order.")
     plan.trusted_base = ["vf/pyvc encoder (Python subset semantics)", "z3 sequences, linear/nonlinear arithmetic, EUF with quantified group axioms",
                          "induction principle over naturals / finite sequences (meta-level) for the lemma pairs base + step",
                          "the defining equations of rev / rep / adjoints / product in this file"]
@@ -575,8 +918,49 @@ def build(tier, seed):
         for ob in obligations_for("C25", fc, tier):
             plan.add(ob)
         plan.fn_under_contract(MIT, fc.qualname)
-    plan.size_bounds = ["the channel-rejection case uses a 2-operation circuit (the any() test is element-wise)"]
-    plan.unverified = ["add_noise / insert (conditionals, positions), noise models", "the extrapolators (_polyfit via pinv, richardson / exponential "
-                       "extrapolation: float linear algebra)", "mitigate_with_zne orchestration; fold_global on QNodes (transform dispatch)",
+    # ---- the extrapolators: real bodies on exact symbolic scalars (E2, sympy-backed), enumerated (points, order) shapes -------------
+    shapes = [(1, 0), (2, 0), (3, 0), (2, 1), (3, 1), (4, 1), (3, 2)] + ([(4, 2), (5, 1)] if tier != "quick" else [])
+    for n_, o_ in shapes:
+        plan.add(Obligation(f"C25/mitigate:_polyfit/exact-on-polynomial-data/points-{n_}-order-{o_}", "post",
+                            (lambda n_=n_, o_=o_: polyfit_symbolic(n_, o_)), func=(MIT, "_polyfit"), size_bounded=True, timeout=600,
+                            sample=f"real _polyfit / poly_extrapolate" + (" / richardson_extrapolate" if o_ == n_ - 1 else "") +
+                            f" on {n_} symbolic abscissae and the values of a symbolic polynomial of degree <= {o_}: returned coefficients "
+                            "(and f(0)) are the polynomial's, for all real abscissae / coefficients"))
+    for q_ in ("_polyfit", "poly_extrapolate", "richardson_extrapolate"):
+        plan.fn_under_contract(MIT, q_)
+
+    def extrapolators_native():
+        rp, runs = native_extrapolator_search()
+        if rp is not None:
+            return Outcome(REFUTED, "native", f"{rp['function']} is not exact on data that follow its model", witness=dict(function=rp["function"], inputs=rp["inputs"]),
+                           replay=rp)
+        return Outcome(DISCHARGED, "native", f"{runs} real float runs within tolerance")
+    plan.add(Obligation("C25/mitigate:poly_extrapolate/native-exactness-on-model-data", "post", extrapolators_native, func=(MIT, "poly_extrapolate"),
+                        bounded=True, timeout=300, sample="real _polyfit / poly_extrapolate / richardson_extrapolate / exponential_extrapolate in binary64 on "
+                        "polynomial data (<= 6 points, every order < points, every degree <= order, 5 grids) and decaying-exponential data"))
+    plan.add(Obligation("C25/add_noise:add_noise/native-enumeration-of-conditional-selections-and-readout-groupings", "post", add_noise_enumeration,
+                        func=("pennylane/noise/add_noise.py", "add_noise"), bounded=True, timeout=400,
+                        sample="real add_noise on real tapes: exact channels at the selected positions, every measurement carried once with its readout "
+                        "channels, post-processing returns result i at position i (all orderings of <= 4 of 6 observables), zero-strength == noiseless"))
+
+    plan.trusted_base += ["vf/symx/sscalar (sympy-backed exact scalars; rational-function normal form with named sqrt / Abs atoms)", "sympy Matrix.inv / together / expand"]
+    plan.assumptions += ["A-float-as-real also for the extrapolators: dtype conversions (convert_like / cast_like) are value-preserving, sqrt is the exact root",
+                         "extrapolators: the abscissae are generic (pairwise distinct, so that the normal matrix is nonsingular; not all zero): equalities are "
+                         "decided as rational functions"]
+    plan.assumed_contracts += ["numpy.linalg.pinv(A) with a cut-off at round-off level (the default) is the inverse of a nonsingular A; called with a larger "
+                               "cut-off the contract does not apply (the obligation then falls back to the native search and is refuted or undecided)"]
+    plan.dropped += ["_polyfit is traced with its module global `math` replaced by a model that overrides convert_like, cast_like, sqrt, linalg.pinv/inv only"]
+    plan.size_bounds = ["the channel-rejection case uses a 2-operation circuit (the any() test is element-wise)",
+                        "extrapolators (symbolic): (points, order) in " + str(shapes) + "; abscissae, coefficients symbolic",
+                        "extrapolators (native stand-in, bounded): <= 6 points on 5 grids, all orders < points, tolerance 1e-6 * max(1, max|y|); "
+                        "exponential data A*exp(B*x) (+ C with asymptote=C), B < 0",
+                        "fold_global native stand-in (bounded): n_ops <= 5, global folds <= 2, every partial fold 0..n_ops",
+                        "add_noise native stand-in (bounded): 3 circuits on 3 wires, subsets of 2 gate rules and 2 readout rules, every ordering of <= 4 "
+                        "(120 of 5) of 6 expval observables, strengths 0 and 0.15; 1 in 61 inputs also executed on default.mixed"]
+    plan.unverified = ["add_noise: no deductive obligation (closures, lru_cache, make_qscript are outside E1); only the bounded native enumeration above; "
+                       "insert (positions), noise-model construction and the conditionals themselves are not covered",
+                       "the extrapolators in binary64 (SVD-based pinv, conditioning) beyond the bounded native runs; fits with more points / higher order than "
+                       "the enumerated shapes; exponential_extrapolate symbolically (sign / where / log)",
+                       "mitigate_with_zne orchestration; fold_global on QNodes (transform dispatch)",
                        "binary64 rounding of the scale-factor arithmetic; scale factors < 1"]
     return plan
